@@ -197,7 +197,7 @@ pub fn check(mut ctx: Ctx, replay: Option<J>) -> ! {
         "path-of-three-or-more-segments-directly-after-an-opening-bracket".to_string()
       } else if let Some(op) = type_then_op(key) {
         format!("instance-of-type-name-swallows-following-operator:{}", op)
-      } else if t["n"] == "between" && (t["lo"]["n"] == "and" || t["lo"]["n"] == "between") {
+      } else if between_with_and_in_lower_bound(t) {
         "between-lower-bound-containing-and-in-parentheses".to_string()
       } else {
         format!("{}:{}>{}", why.split_whitespace().nth(1).unwrap_or("?"), t["n"].as_str().unwrap_or("?"), inner)
@@ -214,4 +214,20 @@ pub fn check(mut ctx: Ctx, replay: Option<J>) -> ! {
   ctx.sample(json!({"texts": recs[7]["texts"]}));
   ctx.assume("names are single words bound in the parsing scope (C10 covers the rest); the operator table of FeelSyntax.tla is the DMN rule order");
   ctx.finish()
+}
+
+/// Does the tree contain, anywhere, a `between` whose lower bound is an `and` or another `between`
+/// (in text: `x between (c and b) and 2`)? The known finding about the separator `and` applies to it
+/// wherever it is nested.
+fn between_with_and_in_lower_bound(t: &J) -> bool {
+  match t {
+    J::Object(o) => {
+      if o.get("n").map_or(false, |n| n == "between") && (t["lo"]["n"] == "and" || t["lo"]["n"] == "between") {
+        return true;
+      }
+      o.values().any(between_with_and_in_lower_bound)
+    }
+    J::Array(a) => a.iter().any(between_with_and_in_lower_bound),
+    _ => false,
+  }
 }
